@@ -543,7 +543,7 @@ func replay(c *vf.Ctx) {
 		if _, fp, what := runArith(r.Ops); fp != "" {
 			c.Violation(fp, what, r)
 		}
-	case "hist-atomic", "hist-set", "hist-map", "hist-diff":
+	case "hist-atomic", "hist-set", "hist-map", "hist-diff", "hist-window":
 		// a recorded concurrent execution cannot be forced to repeat; the recorded history is re-judged
 		var r histCase
 		_ = json.Unmarshal(raw, &r)
@@ -659,6 +659,10 @@ func run(c *vf.Ctx) {
 	c.Require("histories:hist-set", 1000)
 	c.Require("histories:hist-map", 1000)
 	c.Require("histories:hist-diff", 1000)
+	c.Require("histories:hist-window", 1000)
+	c.Require("window:rounds-apply-adds-and-deletes-probe", 300)
+	c.Require("window:rounds-replace-keeps-probe", 150)
+	c.Require("window:probes-overlapping-the-atomic-call", 2000*min(runtime.NumCPU(), 4)/4)
 	c.Require("alias_cases_decided", len(aliasCases()))
 	c.Require("crossed_pairs_decided", len(crossPairs()))
 	c.Require("overlapping_op_pairs", 10000)
